@@ -43,7 +43,8 @@ WideStoppers ==
 
 RandRun(maxlen) ==
   LET n == Pick(0..maxlen)
-      vals == [i \in 1..n |-> ValEv(Pick(WideVals))]
+      vals == [i \in 1..n |-> IF Pick(1..10) = 1 THEN (IF Pick(1..2) = 1 THEN DbgEv(Pick(WideVals)) ELSE SerrEv(Pick(WideVals)))
+                               ELSE ValEv(Pick(WideVals))]
   IN IF n < maxlen /\ Pick(1..5) <= 2 THEN Append(vals, Pick(WideStoppers)) ELSE vals
 
 \* ---- random command lines --------------------------------------------------
